@@ -552,6 +552,9 @@ pub unsafe extern "C" fn waitpid(pid: pid_t, status: *mut c_int, flags: c_int) -
         log(k::WAIT4, [pid as i64, flags as i64, 0, 0], -1, d.fail, 1);
         return -1;
     }
+    if on && flags & libc::WNOHANG != 0 {
+        vclock::note_status_check();
+    }
     if on && flags & libc::WNOHANG == 0 && pid > 0 && pid == vclock::NEVER_EXITS_PID.load(std::sync::atomic::Ordering::SeqCst) {
         // a wait without WNOHANG on a child that is known never to exit: it would never return
         vclock::BLOCKING_WAITS_ON_NEVER_EXITING.fetch_add(1, std::sync::atomic::Ordering::SeqCst);
